@@ -4,4 +4,4 @@ cd /verif
 start=$(date +%s)
 ./check "$1" --tier "${2:-quick}" 2>/tmp/q_$1.err | grep -E "^VIOLATION|^  what:|^\[C[0-9]+\]|^HARNESS|^KNOWN" | cut -c1-${3:-500} | head -${4:-24}
 echo "exit=${PIPESTATUS[0]} wall=$(( $(date +%s) - start ))s"
-grep -v -E "C-API|RuntimeWarning|warnings.warn|xla_bridge|plugin|xla_client|\^\^\^|AttributeError: module|discover_pjrt|initialize\(\)|^Traceback|^$" /tmp/q_$1.err | tail -5
+grep -v -E "Growing supergraph|C-API|RuntimeWarning|warnings.warn|xla_bridge|plugin|xla_client|\^\^\^|AttributeError: module|discover_pjrt|initialize\(\)|^Traceback|^$" /tmp/q_$1.err | tail -5
